@@ -365,6 +365,9 @@ def step (_ : Unit) (ws : List String) : Unit × String :=
       | some false => "noverify"
       | none => "missing"
     | _, _ => "bad-op"
+  -- written by the harness when it cut the campaign short because scenarios sat out the driver's own time-outs:
+  -- in the model (and on the unchanged code) no scenario waits — the scripted peer answers or closes at once
+  | "slowrun" :: _ => "no-scenario-waits"
   | _ => "bad-op")
 
 def init : Unit := ()
